@@ -111,6 +111,11 @@ add("C06", "fault_enumeration",
     "kill -9 semantics (completed operations durable); boundaries at Python-visible operation granularity; native writers (parquet) not split",
     "runtime monitoring: fault injection at every FS-operation boundary (failpoint shim) + recovery-process oracle", "E3-fs")
 
+add("C07", "exploration",
+    "Controlled-concurrency exploration on the real code: 9 scenarios of 2-3 real processes (same keep on a cold store, re-keep vs reader, keep-new vs keep-old, nested evals plus reader, default-store creation race, one internal dir with two data views) run under a scheduler that serialises them at every file-system operation boundary (incl. each half of each write); all schedules with <=1 (quick) / <=2 (thorough) preemptions are executed depth-first by re-execution; oracle = every returning keep/load gives the complete correct value, nobody raises, and fresh processes afterwards load and re-evaluate everything correctly. Held on the schedules executed.",
+    "exhaustive only up to the preemption bound / execution budget and at Python-visible operation granularity; single FS operations assumed atomic",
+    "runtime monitoring: controlled scheduler over real processes (systematic interleaving exploration, preemption-bounded) + outcome oracle", "E3-fs")
+
 NOT_YET = {}
 
 
